@@ -1044,6 +1044,25 @@ pub fn published_class(c: &OpCase, publics: &[Fq]) -> String {
             return "[no dividend bound: quotient and remainder of dividend + field order]".into();
         }
     }
+    if c.op == "b64v.url" {
+        // nothing is published (crate-private vector): the class is read off the honest input -
+        // '+' or '/' present, and well-formed once they are written '-' and '_'
+        let plus = Fq::from(b'+' as u64);
+        let slash = Fq::from(b'/' as u64);
+        if c.ins.iter().any(|b| b.0 == plus || b.0 == slash) {
+            let mut fixed = c.clone();
+            for b in fixed.ins.iter_mut() {
+                if b.0 == plus {
+                    *b = Fe(Fq::from(b'-' as u64));
+                } else if b.0 == slash {
+                    *b = Fe(Fq::from(b'_' as u64));
+                }
+            }
+            if crate::ops_parse::b64v_expected_admissible(&fixed) {
+                return "[base64url input containing '+' or '/']".into();
+            }
+        }
+    }
     if c.op == "b64.url" {
         let n = (c.p[1] as usize).min(publics.len());
         if publics[..n].iter().any(|b| *b == Fq::from(b'+' as u64) || *b == Fq::from(b'/' as u64)) {
